@@ -34,13 +34,16 @@
      (see the theorem). Supersedes C12_sync_complete_partial.
    ROUND 3: C12_nothing_lost  FULL (both schemes, with callback, every per-depth bound,
      all histories): no pending request ever leaves the queue without being handed out.
-   NOT PROVED: termination from C12_nothing_lost + eventual delivery (reaching
-     Pending() = 0 is a hypothesis of C12_sync_complete), that Commit succeeds, the link
+   ROUND 4c: C12_sync_sound_any_scheme  FULL, BOTH schemes: requests, writes, DELETIONS
+     (stale / dangling nodes only) and database entries are the target's.
+   ROUND 4b: C12_never_stuck  FULL (hash scheme, with callback): no deadlock.
+   NOT PROVED: a bound on the number of deliveries (termination proper: reaching
+     Pending() = 0 stays a hypothesis of C12_sync_complete), that Commit succeeds, the link
      RN = c07/c11's nodes_of of an expanded trie (needs decode(encode n) = collapse n),
      deps = (not just >=) the number of pending children, sync_progress,
      sync_order_irrelevant, and everything about completeness in the PATH scheme (needs
      the prefix argument that deletions never hit a completed subtree). *)
-From GV Require Import Trie.Node Trie.Hash Storage.KV Trie.Sync Trie.SyncProofs Trie.SyncInv Trie.SyncComplete Trie.SyncQueue Trie.SyncCallback.
+From GV Require Import Trie.Node Trie.Hash Storage.KV Trie.Sync Trie.SyncProofs Trie.SyncInv Trie.SyncComplete Trie.SyncQueue Trie.SyncCallback Trie.SyncLive Trie.SyncPath.
 
 (* the delivery composition (hash check, then ProcessNode) rejects a blob whose hash
    differs from the requested one and changes nothing *)
@@ -204,6 +207,63 @@ Theorem C12_sync_complete :
        (exists h, k = code_key h /\ RC H T root cb0 h /\ CD h = Some v)).
 Proof. exact sync_complete_callback. Qed.
 Print Assumptions C12_sync_complete.
+
+(* SOUNDNESS IN EITHER SCHEME (ps = true: PATH scheme, with its deletions), with the
+   account callback, all histories of Missing / node deliveries / code deliveries /
+   Commit (run_wf3: deliveries are hash-checked and a blob passing the check is the
+   serving side's).  soundP says: every pending request is a node of the target (and the
+   blob cached in it the target's blob), every code request / queued code a code of the
+   target; every membatch WRITE puts the blob of a target node at that node's own
+   (owner, path); every membatch DELETION is either at the (owner, path) of a target node
+   (a stale node with another hash stored there) or at a path strictly inside the key of
+   a target short node over a hash child (a dangling node): nothing else is ever
+   deleted; and every database entry is initial content, or a target node's blob under
+   that node's key (path scheme: "A"/"O" + path; hash scheme: its hash), or a target
+   code.  Everything Missing returns is a target node / code. *)
+Theorem C12_sync_sound_any_scheme :
+  forall (H : list N -> list N) (T CD : list N -> option (list N)) (root : list N) (cb0 : cbkind)
+         (db0 : kv) (ps : bool) (ops : list op),
+    let s0 := unsum (new_sync H ps db0 root cb0) in
+    run_wf3 H T CD s0 ops ->
+    soundP H T CD root cb0 db0 ps (run H s0 ops) /\
+    forall k, let '(s', ns, cs) := missing (run H s0 ops) k in
+      nsP_ok H T root cb0 ns /\ csP_ok H T root cb0 cs.
+Proof. exact sync_sound_any_scheme. Qed.
+Print Assumptions C12_sync_sound_any_scheme.
+
+(* LIVENESS, HASH scheme with the account callback: the scheduler never gets stuck.
+   After any history (run_wf5 = run_wf4 + a code passing the hash check is processed
+   without panic) of Missing / node deliveries / code deliveries / Commit from NewSync,
+   as long as Pending() > 0 there is an UNDELIVERED node request or a code request, and it
+   is in the priority queue (the next Missing calls hand it out) or was already handed
+   out by a Missing call (second component of run3 = everything Missing returned).
+   Proved from: deps <= and >= the number of pending children, every delivered pending
+   request has deps > 0, parents have strictly shorter paths than their children
+   (Trie/SyncLive.v [live]), and the queue invariant of C12_nothing_lost.
+   With C12_sync_complete: a run in which every handed-out item is eventually delivered
+   and Missing is called again can only stop at Pending() = 0, where the store holds
+   exactly the target.  (A bound on the number of deliveries is not formalised.) *)
+Theorem C12_never_stuck :
+  forall (H : list N -> list N) (T CD : list N -> option (list N)) (root : list N) (cb0 : cbkind)
+         (db0 : kv),
+    (forall p h cb p' cb', RN H T root cb0 p h cb -> RN H T root cb0 p' h cb' -> cb = cb') ->
+    (forall p h cb, RN H T root cb0 p h cb -> h <> zero32) ->
+    (forall p h cb, RN H T root cb0 p h cb -> length h = 32%nat) ->
+    (forall k v, get k db0 = Some v ->
+       (forall b, RNh H T root cb0 k -> T k = Some b -> v = b) /\
+       (forall h c, k = code_key h -> RC H T root cb0 h -> CD h = Some c -> v = c)) ->
+    forall ops : list op,
+    closedA H T root cb0 db0 ->
+    let s0 := unsum (new_sync H false db0 root cb0) in
+    run_wf5 H T CD s0 ops ->
+    let st := run3 H (s0, []) (map emb ops) in
+    pending (fst st) <> O ->
+    (exists p r, aget p (nreqs (fst st)) = Some r /\ nr_data r = None /\
+                 (In (QNode p) (items (queue (fst st))) \/ In (QNode p) (snd st))) \/
+    (exists h c, aget h (creqs (fst st)) = Some c /\
+                 (In (QCode h) (items (queue (fst st))) \/ In (QCode h) (snd st))).
+Proof. exact sync_never_stuck. Qed.
+Print Assumptions C12_never_stuck.
 
 (* non-vacuity of C12_sync_complete: a branch with three leaves under a toy 32-byte hash,
    empty destination; the history (Missing, a corrupted and the honest root delivery,
